@@ -73,12 +73,16 @@ class _ScriptedSource:
         arrival, ts, kind, ident = self.script[self.i]
         self.i += 1
         await env.sleep_until(arrival)
+        # kinds: 0 = a number (its identity), 1 = None, 2 = NaN, 3 = +inf, 4 = -inf, 5 = 1e308 (sums overflow)
         if kind == 0:
             q = Quantity(float(ident))
         elif kind == 1:
             q = None
-        else:
+        elif kind == 2:
             q = Quantity(float("nan"))
+        else:
+            q = Quantity({3: float("inf"), 4: float("-inf"), 5: 1e308}[kind])
+            ident = -kind
         env.log.append(["recv", self.sid, ts, kind, ident])
         return Sample(dt(ts, self.tz), q)
 
@@ -101,10 +105,26 @@ class _Env:
             await asyncio.sleep((off - self.clk()) / 1e6)
 
 
+def vcode(v):
+    """JSON-able code of a Quantity|None: None, "nan", "inf", "-inf", an int, or repr of a float."""
+    if v is None:
+        return None
+    x = v.base_value
+    if x != x:
+        return "nan"
+    if x in (float("inf"), float("-inf")):
+        return "inf" if x > 0 else "-inf"
+    return int(x) if x == int(x) and abs(x) < 2**53 else repr(x)
+
+
 def _sample_rec(s):
     v = s.value
     if v is None:
         return [to_us(s.timestamp), -1, 1]
+    if not v.isnan() and abs(v.base_value) >= 1e300:
+        x = v.base_value
+        k = 3 if x == float("inf") else 4 if x == float("-inf") else 5
+        return [to_us(s.timestamp), -k, k]
     if v.isnan():
         return [to_us(s.timestamp), -2, 2]
     return [to_us(s.timestamp), int(v.base_value), 0]
@@ -127,6 +147,7 @@ async def _shutdown():
 async def _scenario(case, loop):
     import time_machine
     from frequenz.sdk.timeseries._resampling import Resampler, ResamplerConfig, ResamplingError
+    from frequenz.sdk.timeseries._resampling import average as _average
 
     env = _Env(loop)
     log = env.log
@@ -156,6 +177,14 @@ async def _scenario(case, loop):
             log.append(["fn", k, [_sample_rec(s) for s in samples], td_us(props.sampling_period),
                         props.received_samples,
                         None if props.sampling_start is None else to_us(props.sampling_start)])
+            mode = case.get("fn", "index")
+            if mode == "average":          # the real default function (inf + -inf -> NaN, 1e308 + 1e308 -> inf)
+                return _average(samples, config, props)
+            if mode == "spread":           # a custom function: max - min (inf - inf -> NaN)
+                vals = [x.value.base_value for x in samples]
+                return max(vals) - min(vals)
+            if mode == "script":           # unusual but valid results, whatever the input
+                return [float(k), float("nan"), float("inf"), None, float("-inf"), 1e308][k % 6]
             return float(k)
 
         cfg = ResamplerConfig(
@@ -180,7 +209,7 @@ async def _scenario(case, loop):
                 # private peek, read-only: the current buffer capacity (oracle input of the model)
                 maxlen = rs._resamplers[src]._helper._buffer.maxlen if src in rs._resamplers else None
                 v = sample.value
-                log.append(["sink", sid, to_us(sample.timestamp), None if v is None else int(v.base_value),
+                log.append(["sink", sid, to_us(sample.timestamp), vcode(v),
                             None if props is None else td_us(props.sampling_period), maxlen, env.clk()])
                 try:
                     if lat.get(k, 0) > 0:
@@ -509,7 +538,7 @@ def series_history(case, log, sid):
             if prev is not None and prev[0] == "fn":
                 passed, called = prev[2], True
             # the value handed to the sink must be the function's result for that very call
-            linked = (e[3] is None and not called) or (called and e[3] == prev[1])
+            linked = (e[3] is None and not called) or (called and e[3] == prev[1]) or case.get("fn", "index") != "index"
             out.append(("tick", e[2], passed, e[3], e[4], e[5], linked))
         prev = e
     while out and out[-1][0] != "tick":
@@ -623,6 +652,9 @@ def gen_c07_case(rng, tier):
     r_add, r_hog = res[0], res[1]
     nser = rng.choice([1, 2, 2, 3, 4])
     series = []
+    # what the resampling function returns: a number / the real `average` and a custom max-min over streams that
+    # contain +-inf pairs and huge values (-> NaN, inf) / a script of NaN, inf, None, 1e308 whatever the input
+    fn_mode = rng.choice(["index", "index", "average", "spread", "script", "script"])
     silent_start = rng.random() < 0.25
     t_first = 0 if not silent_start else rng.choice([p // 2, p, 2 * p, 3 * p, 4 * p + p // 2]) // 1000 * 1000 + r_add
     lat_choices = [p // 4, p // 2, p - 1000, p, p + 1000, 3 * p // 2, 2 * p, 3 * p, 7 * p // 2]
@@ -641,10 +673,12 @@ def gen_c07_case(rng, tier):
                 s["remove_at"] = s["add_at"] + rng.randrange(p, 5 * p) // 1000 * 1000 + (0 if s["add_at"] else r_add)
             elif r < 0.55:
                 s["stop_at"] = s["add_at"] + rng.randrange(p, 4 * p)
-        if rng.random() < 0.4:
-            ip = rng.choice([p // 2, p, 2 * p])
-            n = min(40, duration // ip)
-            s["samples"] = [[s["add_at"] + 1000 + j * ip + 77, start + s["add_at"] + j * ip, 0, i * 100000 + j] for j in range(n)]
+        if rng.random() < 0.5:
+            ip = rng.choice([p // 3, p // 2, p, 2 * p])
+            n = min(60, duration // ip)
+            kinds = [0] * 6 + ([1, 2, 3, 4, 3, 4, 5] if fn_mode != "index" else [1, 2])
+            s["samples"] = [[s["add_at"] + 1000 + j * ip + 77, start + s["add_at"] + j * ip, rng.choice(kinds), i * 100000 + j]
+                            for j in range(n)]
         series.append(s)
     hogs = []
     for _ in range(rng.choice([0, 0, 1, 1, 2])):
@@ -670,7 +704,7 @@ def gen_c07_case(rng, tier):
                     s[fld] = (h0 + d) // 1000 * 1000 + 2000 + r_add
     return {"period": p, "align": align, "start": start, "loop_t0": loop_t0, "age": [3, 1], "init_len": 16,
             "warn_len": 128, "max_len": 1024, "one_shot": one_shot, "duration": duration, "series": series, "hogs": hogs,
-            "align_tz": align_tz,
+            "align_tz": align_tz, "fn": fn_mode,
             "tag": {"align": kind, "phase": ("0" if phase == 0 else "+1" if phase == 1 else "-1" if phase == p - 1 else
                                               "half" if abs(phase - p // 2) <= 1 else "other")}}
 
@@ -738,11 +772,14 @@ def gen_c08_case(rng, tier):
     R = _div_round_he(p * age[0], age[1])
     nser = rng.choice([1, 1, 2])
     series = []
+    # the real default `average` / a custom max-min over streams that contain +-inf and huge values
+    fn_mode = rng.choice(["index"] * 5 + ["average", "spread"])
     for i in range(nser):
         ratio = rng.choice([Fraction(1, 7), Fraction(1, 3), Fraction(1, 2), Fraction(1), Fraction(2), Fraction(3),
                             Fraction(7), Fraction(3, 2), Fraction(2, 3)])
         ip = max(1, int(p * ratio))
         pattern = rng.choice(["regular", "regular", "jitter", "burst", "silence", "future", "late_burst"])
+        special = fn_mode != "index"
         ts_list = []
         t = start - rng.randrange(0, 2 * ip + 1)
         end = start + duration
@@ -786,6 +823,8 @@ def gen_c08_case(rng, tier):
             arr_prev = arr
             r = rng.random()
             kindv = 0 if r < 0.85 else (1 if r < 0.93 else 2)
+            if special and rng.random() < 0.25:
+                kindv = rng.choice([3, 4, 3, 4, 5])          # +inf / -inf / 1e308: valid values
             samples.append([arr, ts, kindv, i * 100000 + j])
         s = {"add_at": 0 if rng.random() < 0.8 else rng.randrange(0, 3 * p) // 1000 * 1000 + 137, "samples": samples}
         if rng.random() < 0.35:
@@ -795,6 +834,7 @@ def gen_c08_case(rng, tier):
             "warn_len": warn_len, "max_len": max_len, "one_shot": rng.random() < 0.15, "duration": duration,
             "series": series, "hogs": [],
             "sample_tz": zone, "align_tz": zone if (zone and align is not None and rng.random() < 0.5) else None,
+            "fn": fn_mode,
             "tag": {"ordered": all(is_time_ordered(s["samples"]) for s in series)}}
     if rng.random() < 0.5:
         _add_input_period_boundaries(rng, case)
@@ -902,7 +942,7 @@ def documented_capacity(case, sp):
 
 def is_time_ordered(samples):
     """valid samples are handed over in non-decreasing timestamp order"""
-    ts = [s[1] for s in samples if s[2] == 0]
+    ts = [s[1] for s in samples if s[2] not in (1, 2)]
     return all(a <= b for a, b in zip(ts, ts[1:]))
 
 
@@ -1112,3 +1152,139 @@ def gen_actor_case(rng, tier):
     hogs = [h for i, h in enumerate(hogs) if h[0] > 0 and (i == 0 or h[0] > hogs[i - 1][0] + hogs[i - 1][1])]
     return {"period": p, "align": align, "start": start, "loop_t0": loop_t0, "duration": nticks * p + 500_000,
             "metrics": metrics, "hogs": hogs, "align_tz": align_tz, "tag": {"align": kind}}
+
+
+# ----------------------------------------------------------------------------- MovingWindow(resampler_config=...) (C07)
+async def _mw_scenario(case, loop):
+    """Second construction path of a Resampler: `MovingWindow(..., resampler_config=cfg)` builds its own Resampler
+    and registers one series whose sink writes into the window's ring buffer.  The module-level name `Resampler`
+    used by _moving_window is replaced by a subclass that only wraps the sink passed to add_timeseries() in a
+    recorder (the ring buffer re-normalises timestamps, so they are taken before it); the log has the format of
+    run_scenario(), so the same trace builder, Coq model and oracle judge it."""
+    import time_machine
+    from frequenz.channels import Broadcast
+    from frequenz.quantities import Quantity
+    import frequenz.sdk.timeseries._moving_window as mwmod
+    from frequenz.sdk.timeseries import MovingWindow, ResamplerConfig, Sample
+
+    env = _Env(loop)
+    log = env.log
+    clock = env.clock
+    clock._ticks += case["loop_t0"]
+    env.base = clock._ticks
+    start = case["start"]
+    orig_cls = mwmod.Resampler
+
+    class RecordingResampler(orig_cls):
+        def add_timeseries(self, name, source, sink):
+            async def rsink(sample):
+                log.append(["sink", 0, to_us(sample.timestamp), vcode(sample.value), None, None, env.clk()])
+                try:
+                    await sink(sample)
+                except asyncio.CancelledError:
+                    log.append(["exit", 0, env.clk(), "cancel"])
+                    raise
+                except BaseException:
+                    log.append(["exit", 0, env.clk(), "raise"])
+                    raise
+                log.append(["exit", 0, env.clk(), "ok"])
+            log.append(["add", 0, env.clk()])
+            return super().add_timeseries(name, source, rsink)
+
+    with time_machine.travel(dt(start), tick=False) as ft:
+        orig_advance = clock.advance
+
+        def sync_wall():
+            ft.move_to(dt(start + env.clk()))
+
+        def advance(delta):
+            orig_advance(delta)
+            sync_wall()
+        clock.advance = advance
+        mwmod.Resampler = RecordingResampler
+        try:
+            kw = {}
+            if case.get("fn") == "spread":
+                kw["resampling_function"] = lambda ss, c, p: max(x.value.base_value for x in ss) - min(x.value.base_value for x in ss)
+            cfg = ResamplerConfig(resampling_period=timedelta(microseconds=case["period"]),
+                                  align_to=None if case["align"] is None else dt(case["align"], case.get("align_tz")), **kw)
+            chan = Broadcast[Sample[Quantity]](name="mw-input")
+            mw = MovingWindow(size=timedelta(microseconds=case["size"]), resampled_data_recv=chan.new_receiver(limit=1000),
+                              input_sampling_period=timedelta(microseconds=case["input_period"]), resampler_config=cfg)
+            mw.start()
+            sender = chan.new_sender()
+            actions = [(a, 0, "send", (ts, kind, ident)) for a, ts, kind, ident in case["samples"]]
+            actions += [(at, 1, "hog", dur) for at, dur in case.get("hogs", [])]
+            actions.sort(key=lambda x: (x[0], x[1]))
+            for at, _, kind, arg in actions:
+                await env.sleep_until(at)
+                if kind == "send":
+                    ts, k, ident = arg
+                    q = (Quantity(float(ident)) if k == 0 else None if k == 1 else
+                         Quantity({2: float("nan"), 3: float("inf"), 4: float("-inf"), 5: 1e308}[k]))
+                    await sender.send(Sample(dt(ts), q))
+                else:
+                    a = env.clk()
+                    clock._ticks += arg
+                    sync_wall()
+                    log.append(["hog", a, env.clk()])
+            await env.sleep_until(case["duration"])
+            log.append(["end", env.clk()])
+            mw.cancel()
+            await _shutdown()
+        finally:
+            mwmod.Resampler = orig_cls
+            clock.advance = orig_advance
+    return {"log": log}
+
+
+def run_mw_scenario(case):
+    import async_solipsism
+    warnings.filterwarnings("ignore", category=async_solipsism.exceptions.ResolutionWarning)
+    loop = async_solipsism.EventLoop()
+    asyncio.set_event_loop(loop)
+    try:
+        return loop.run_until_complete(_mw_scenario(case, loop))
+    finally:
+        loop.close()
+        asyncio.set_event_loop(None)
+
+
+def gen_mw_case(rng, tier):
+    p, align, start, loop_t0, kind, phase = gen_timing(rng, tier)
+    nticks = rng.randint(5, 12)
+    align_tz = None
+    if align is not None and rng.random() < 0.3:
+        align_tz, delta = dst_shift(rng, p, start, nticks)
+        start += delta
+        if kind != "epoch":
+            align += delta
+    ph = tick_phase(p, align, start)
+    ip = rng.choice([p // 4, p // 2, p, p, 2 * p, 333_333])
+    fn = rng.choice(["average", "average", "spread"])
+    kinds = [0] * 6 + [1, 2, 3, 4, 3, 4, 5]
+    n = min(80, (nticks * p) // ip)
+    samples = [[1000 + j * ip + 77, start + j * ip, rng.choice(kinds), j] for j in range(n)] if rng.random() < 0.85 else []
+    hogs = []
+    if rng.random() < 0.4:
+        k = rng.randrange(0, nticks)
+        delta = rng.choice([1, 1000, p // 3])
+        hogs.append([ph + (k + 1) * p - delta, delta + rng.choice([0, 1, 2, 3]) * p])
+    hogs = [h for h in hogs if h[0] > 0]
+    return {"period": p, "align": align, "align_tz": align_tz, "start": start, "loop_t0": loop_t0, "one_shot": False,
+            "duration": nticks * p + 500_000, "size": rng.choice([2, 5, 10]) * p, "input_period": ip, "samples": samples,
+            "hogs": hogs, "fn": fn, "series": [{"add_at": 0}], "tag": {"align": kind}}
+
+
+def mw_boundary_cases():
+    out = []
+    P = 1_000_000
+    for p in (200_000, P, 3 * P):
+        for align_kind in ("none", "unaligned", "epoch", "berlin"):
+            start = (BASE // p) * p + p // 3
+            align = None if align_kind == "none" else 0 if align_kind == "epoch" else start - 17 * p - 123_457
+            out.append({"period": p, "align": align, "align_tz": "Europe/Berlin" if align_kind == "berlin" else None, "start": start,
+                        "loop_t0": 0, "one_shot": False, "duration": 8 * p + 500_000, "size": 5 * p, "input_period": p // 2,
+                        "samples": [[1000 + j * (p // 2), start + j * (p // 2), [0, 0, 3, 4, 0, 2][j % 6], j] for j in range(14)],
+                        "hogs": [], "fn": "average", "series": [{"add_at": 0}], "tag": {"align": align_kind}})
+    return out
